@@ -220,7 +220,7 @@ func verifyImage(res *caseResult, caseIdx int, img imgfs.Image, shards int, name
 			continue
 		}
 		if !ok {
-			if mustHave {
+			if mustHave && n.k.kind != "series" { // (series cannot be looked up without creating them)
 				// observation only: the property speaks about names found in the recovered dictionaries (C07 covers loss)
 				o.count("names_flushed_but_not_recovered_on_image."+n.k.kind, 1)
 				// a flush cycle completed after the name was created, so flushed index entries / data files may
@@ -252,6 +252,13 @@ func verifyImage(res *caseResult, caseIdx int, img imgfs.Image, shards int, name
 				return "owner-name-was-durable"
 			}
 		}
+		var ids []uint32
+		for _, n := range names {
+			if n.k.kind == kind {
+				ids = append(ids, n.id)
+			}
+		}
+		o.count(fmt.Sprintf("debug_owner_unknown_%s_%d_known_ids_%v", kind, id, ids), 1)
 		return "owner-unknown"
 	}
 	// fresh names must not get ids that recovered dictionaries or recovered index entries use
@@ -325,7 +332,7 @@ func freshRow(o *observations, d *dbset, s int, row rowSpec, k int, label string
 		for si := range d.idx {
 			ids, err := d.idx[si].GetSeriesIDsForMetric(mid)
 			if err == nil && ids != nil && !ids.IsEmpty() {
-				o.fail("C09/metric/fresh-id-already-used-by-index-entries/"+why("metric", uint32(mid)), "image %d (after %q): new metric %q got id %d, but shard %d's recovered index already lists series %v for that id",
+				o.fail("C09/fresh-id-already-used-by-index-entries/"+why("metric", uint32(mid))+"/metric", "image %d (after %q): new metric %q got id %d, but shard %d's recovered index already lists series %v for that id",
 					k, label, row.Metric, mid, si, ids.ToArray())
 			}
 		}
@@ -341,7 +348,7 @@ func freshRow(o *observations, d *dbset, s int, row rowSpec, k int, label string
 			for si := range d.idx {
 				ids, err := d.idx[si].GetSeriesIDsForTag(kid)
 				if err == nil && ids != nil && !ids.IsEmpty() {
-					o.fail("C09/tagkey/fresh-id-already-used-by-index-entries/"+why("tagkey", uint32(kid)), "image %d (after %q): tag key %q of new metric %q got id %d, but shard %d's recovered index already lists series %v for that tag key id",
+					o.fail("C09/fresh-id-already-used-by-index-entries/"+why("tagkey", uint32(kid))+"/tagkey", "image %d (after %q): tag key %q of new metric %q got id %d, but shard %d's recovered index already lists series %v for that tag key id",
 						k, label, kv[0], row.Metric, kid, si, ids.ToArray())
 				}
 			}
@@ -354,7 +361,7 @@ func freshRow(o *observations, d *dbset, s int, row rowSpec, k int, label string
 		for si := range d.idx {
 			ids, err := d.idx[si].GetSeriesIDsByTagValueIDs(kid, roaring.BitmapOf(vid))
 			if err == nil && ids != nil && !ids.IsEmpty() {
-				o.fail("C09/tagvalue/fresh-id-already-used-by-index-entries/"+why("tagvalue", uint32(vid)), "image %d (after %q): new tag value %q got id %d, but shard %d's recovered index already lists series %v for that tag value id",
+				o.fail("C09/fresh-id-already-used-by-index-entries/"+why("tagvalue", uint32(vid))+"/tagvalue", "image %d (after %q): new tag value %q got id %d, but shard %d's recovered index already lists series %v for that tag value id",
 					k, label, kv[1], vid, si, ids.ToArray())
 			}
 		}
@@ -373,7 +380,7 @@ func freshRow(o *observations, d *dbset, s int, row rowSpec, k int, label string
 		return
 	}
 	if before != nil && before.Contains(sid) {
-		o.fail("C09/series/fresh-id-already-used-by-index-entries/"+why("series", uint32(sid)), "image %d (after %q): new series %q of metric %d got id %d which the recovered index already lists", k, label, row.tagString(), mid, sid)
+		o.fail("C09/fresh-id-already-used-by-index-entries/"+why("series", uint32(sid))+"/series", "image %d (after %q): new series %q of metric %d got id %d which the recovered index already lists", k, label, row.tagString(), mid, sid)
 	}
 	o.observe(97, "series", fmt.Sprintf("shard=%d,metric=%d", s, mid), row.tagString(), sid, o.tick(), o.tick())
 	for _, f := range row.Fields {
